@@ -5,6 +5,7 @@
 // keys with 0xff bytes, a download policy, three useful peers), copied table by table into a file in the format iroh-docs 0.94..=0.98 wrote (redb 2.x
 // tuple tags on records / by-key / heads); that file is opened with Store::persistent (file-format migration + table migrations) and every observable
 // (documents with capability kind, authors, entries by both query paths, heads, policy, peers) must equal the original; a second reopen changes nothing.
+// The same with a legacy file that lacks the derived tables (heads, by-key index): they must be rebuilt by that first open.
 #[cfg(all(test, feature = "fs-store", feature = "redb-v2-migration"))]
 mod verif_rp_c18_legacy_file {
     use redb::{ReadableMultimapTable as _, ReadableTable as _};
@@ -69,8 +70,12 @@ mod verif_rp_c18_legacy_file {
         let want = observe(&mut reference, &docs);
         assert_eq!(want.0.len(), 2);
 
+        let mut reopened_last: Option<Store> = None;
+        // second variant: the legacy file lacks the derived tables (heads, by-key index): the first open must rebuild them as well
+        for with_derived in [false, true] {
+        let what = if with_derived { "all tables" } else { "without the derived tables" };
         // the same contents in a file as iroh-docs 0.94..=0.98 wrote it
-        let legacy_path = dir.path().join("legacy.redb");
+        let legacy_path = dir.path().join(if with_derived { "legacy.redb" } else { "legacy-no-derived.redb" });
         {
             use migrate_redb_v2_tuples::old;
             const AUTHORS: redb_v3::TableDefinition<&[u8; 32], &[u8; 32]> = redb_v3::TableDefinition::new("authors-1");
@@ -83,10 +88,12 @@ mod verif_rp_c18_legacy_file {
             {
                 let mut t = tx.open_table(old::RECORDS_TABLE).unwrap();
                 for x in snap.records.iter().unwrap() { let (k, v) = x.unwrap(); t.insert(k.value(), v.value()).unwrap(); }
+                if with_derived {
                 let mut t = tx.open_table(old::RECORDS_BY_KEY_TABLE).unwrap();
                 for x in snap.records_by_key.iter().unwrap() { let (k, _) = x.unwrap(); t.insert(k.value(), ()).unwrap(); }
                 let mut t = tx.open_table(old::LATEST_PER_AUTHOR_TABLE).unwrap();
                 for x in snap.latest_per_author.iter().unwrap() { let (k, v) = x.unwrap(); t.insert(k.value(), v.value()).unwrap(); }
+                }
                 let mut t = tx.open_table(AUTHORS).unwrap();
                 for x in snap.authors.iter().unwrap() { let (k, v) = x.unwrap(); t.insert(k.value(), v.value()).unwrap(); }
                 let mut t = tx.open_table(NAMESPACES).unwrap();
@@ -98,17 +105,21 @@ mod verif_rp_c18_legacy_file {
             }
             tx.commit().unwrap();
         }
-        drop(reference);
 
-        let mut reopened = match Store::persistent(&legacy_path) { Ok(s) => s, Err(e) => panic!("WITNESS a store file in the 0.94..=0.98 format does not open: {e:?}") };
-        let got = observe(&mut reopened, &docs);
-        assert_eq!(got.0, want.0, "WITNESS documents / capability kinds after opening the legacy file");
-        assert_eq!(got.1, want.1, "WITNESS authors after opening the legacy file");
-        assert_eq!(got.2, want.2, "WITNESS entries (author-key path) after opening the legacy file");
-        assert_eq!(got.3, want.3, "WITNESS entries (key-author path) after opening the legacy file");
-        assert_eq!(got.4, want.4, "WITNESS author heads after opening the legacy file");
-        assert_eq!(got.5, want.5, "WITNESS download policies after opening the legacy file");
-        assert_eq!(got.6, want.6, "WITNESS useful peers after opening the legacy file");
+        reopened_last = Some(match Store::persistent(&legacy_path) { Ok(s) => s, Err(e) => panic!("WITNESS a store file in the 0.94..=0.98 format ({what}) does not open: {e:?}") });
+        let reopened = reopened_last.as_mut().unwrap();
+        let got = observe(reopened, &docs);
+        assert_eq!(got.0, want.0, "WITNESS documents / capability kinds after opening the legacy file ({})", what);
+        assert_eq!(got.1, want.1, "WITNESS authors after opening the legacy file ({})", what);
+        assert_eq!(got.2, want.2, "WITNESS entries (author-key path) after opening the legacy file ({})", what);
+        assert_eq!(got.3, want.3, "WITNESS entries (key-author path) after opening the legacy file ({})", what);
+        assert_eq!(got.4, want.4, "WITNESS author heads after opening the legacy file ({})", what);
+        assert_eq!(got.5, want.5, "WITNESS download policies after opening the legacy file ({})", what);
+        assert_eq!(got.6, want.6, "WITNESS useful peers after opening the legacy file ({})", what);
+        }
+        drop(reference);
+        let mut reopened = reopened_last.unwrap();
+        let legacy_path = dir.path().join("legacy.redb");
         // the write secret survived: local writes work on the write document and are refused on the read-only one
         let mut r = reopened.open_replica(&docs[0]).unwrap();
         let res = r.hash_and_insert(b"new", &authors[0], b"v").await;
